@@ -13,7 +13,9 @@ CLAIMS = {
              'the field-exact correspondence on every run)',
         technique='Coq proof over generated model + differential correspondence', ref='DESIGN.md §5 C01'),
     'C04': dict(
-        text='Coq theorems c04_invariant/outputs/window_meaning/end/stray_end/members/nodup/complete/all/none/start: for '
+        text='Coq theorems c04_code_refines_model (the statements of _feed_start/end/single_event and the qualifier dispatch table, '
+             'REGENERATED from the source by tr_pairing.py, compute the table step of the model; no KeyError possible), '
+             'c04_invariant/outputs/window_meaning/end/stray_end/members/nodup/complete/all/none/start: for '
              'EVERY finite history and every routing/decodability predicate the pairing machine (hand model of '
              'TracesParser.feed) delivers exactly the per-key window of the functional specification; closed under the '
              'global context. Model tied to the code by a vm_compute correspondence on seeded histories each run.',
@@ -174,7 +176,8 @@ CLAIMS = {
              'decoders; pairing model of C04; regenerated rows for the syscall path arguments; UTF-8 decoding is a library oracle',
         technique='Coq proof (encoder/reassembler round trip, pairing spec) + correspondence', ref='DESIGN.md §5 C08'),
     'C13': dict(
-        text='Coq theorems c13_all_filters (the WHOLE request - selection with helper classes, pairing, table writes of the '
+        text='Coq theorems c13_code_helpers / c13_code_post_filters / c13_code_stage_order (the helper classes, post-filters and stage '
+             'order regenerated from the source by tr_filters.py are those of the model), c13_all_filters (the WHOLE request - selection with helper classes, pairing, table writes of the '
              'decoders, thread / process / helper post-filters - yields exactly the traces of the run with NO filter that '
              'satisfy the thread, process and class filters, the process judged with the tables the unfiltered run has at that '
              'trace; same order, same tables, windows restricted to the fed records; hypothesis checked by c13_writer_classes '
